@@ -64,6 +64,9 @@ def ritem(it, params=False):
     return A.render_item(it)
 
 
+LINES = {}         # the instruction texts standing for the uninterpreted lines 1, 2 of GenMacro!WrapProgs
+
+
 def rstmt(s, out, variant):
     k = s["k"]
     if k == "define":
@@ -87,6 +90,8 @@ def rstmt(s, out, variant):
         for b in s["body"]:
             rstmt(b, out, variant)
         out.append(".endr")
+    elif k == "line":
+        out.append("  " + LINES[s["i"]])
     elif k == "data":
         names = A.DATA_NAMES[s["w"]]
         out.append("%s %s" % (names[variant % len(names)], ", ".join(ritem(i) for i in s["items"])))
@@ -191,7 +196,7 @@ def run(tier, seed):
     rnd = random.Random(seed)
     vdir = C.ensure_build("rel")
     rd = chk.rundir
-    g1 = C.tlc("GenMacro", "gen_Macro_bfs.cfg", rd, workers=8, heap="4g")
+    g1 = C.tlc("GenMacro", "gen_Macro_bfs.cfg", rd, workers=8, heap="4g", prefixes=("CASE ", "WRAP "))
     g2 = C.tlc("GenMacro", "gen_Macro_sim.cfg", rd, workers=4, heap="4g", simulate=(500 if tier == "quick" else 8000), depth=16, seed=seed)
     chk.add_tlc(g1)
     chk.add_tlc(g2)
@@ -214,9 +219,59 @@ def run(tier, seed):
         cid = "m%d" % i
         meta[cid] = (i, cpu, bpa, big, names, src)
         cases.append((cid, "syms=%s imgmax=20000" % ";".join(names), src))
-    obs = C.conform_parallel(vdir, "asm", cases, rd, "c09", 10)
+    # wrap family (GenMacro!WrapProgs): instruction lines of every CPU's comparison corpus inside a macro, as a macro
+    # argument, next to the expansion TLC computed; both are assembled by the real assembler
+    from .. import codec as K
+    wraps = C.parse_payload(g1.lines, "WRAP ")
+    if not wraps or len(wraps[0]) < 4:
+        raise C.InfraError("no wrap programs")
+    wraps = sorted(wraps[0], key=lambda w: json.dumps(w, sort_keys=True))
+    cpuinfo = {c["name"]: c for c in K.cpu_list(vdir)}
+    percpu = {}
+    for cpu, text in K.corpus(set(cpuinfo)):
+        if ":" not in text and "," in text:
+            percpu.setdefault(cpu, [])
+            if text not in percpu[cpu]:
+                percpu[cpu].append(text)
+    wmeta, wcases = {}, []
+    for cpu, texts in sorted(percpu.items()):
+        # (a macro argument ends at a comma: the argument shape takes instructions without one)
+        nocomma = [t for t in K.corpus({cpu}) if "," not in t[1] and ":" not in t[1]]
+        pick = texts if tier == "thorough" else rnd.sample(texts, min(len(texts), 24))
+        for k, t in enumerate(pick):
+            t2 = texts[(texts.index(t) + 1) % len(texts)]
+            for wi, w in enumerate(wraps):
+                argform = any(st["k"] == "invoke" and st["args"] for st in w["p"])
+                l1 = t
+                if argform:
+                    if not nocomma:
+                        continue
+                    l1 = nocomma[k % len(nocomma)][1]
+                srcs = []
+                for prog in (w["p"], w["x"]):
+                    LINES.clear()
+                    LINES.update({1: l1, 2: t2})
+                    out = [".%s" % cpu, ".org 0x%x" % (0x1000 // cpuinfo[cpu]["bpa"])]
+                    for st in prog:
+                        rstmt(st, out, 0)
+                    srcs.append("\n".join(out) + "\n")
+                wid = "w.%s.%d.%d" % (cpu, k, wi)
+                wmeta[wid] = (cpu, srcs[0], srcs[1])
+                wcases.append((wid + ".p", "imgmax=4000", srcs[0]))
+                wcases.append((wid + ".x", "imgmax=4000", srcs[1]))
+    obs = C.conform_parallel(vdir, "asm", cases + wcases, rd, "c09", 10)
     byid = {o["case"]: o for o in obs}
     events = []
+    nwrap = 0
+    for wid, (cpu, sp, sx) in sorted(wmeta.items()):
+        op, ox = observe(byid[wid + ".p"], []), observe(byid[wid + ".x"], [])
+        if "crash" in (op["k"], ox["k"]):
+            chk.report("wrap:%s:crash" % cpu, "assembler died on\n%s" % sp, dict(source=sp, expansion=sx, observed=[op, ox]))
+            continue
+        if ox["k"] != "ok":
+            continue            # the instruction line itself is not accepted at this place
+        nwrap += 1
+        events.append({"id": wid, "obs": op, "ref": ox})
     for cid, (i, cpu, bpa, big, names, src) in meta.items():
         ob = observe(byid[cid], names)
         if ob["k"] == "crash":
@@ -278,7 +333,20 @@ def run(tier, seed):
     if missed:
         raise C.InfraError("canaries accepted: %s" % missed[:3])
     # attribute failures to the shortest failing program's last statement
-    fails = sorted((cid for cid in bad if cid not in canaries), key=lambda c: len(progs[meta[c][0]]))
+    seenw = set()
+    for cid in sorted(bad):
+        base = cid[len("canary."):] if cid.startswith("canary.") else cid
+        if cid in canaries or base not in wmeta:
+            continue
+        cpu, sp, sx = wmeta[cid]
+        shape = int(cid.split(".")[-1])
+        key = "wrap:%s:shape%d:%s" % (cpu, shape, K.shape(sp.split("\n")[3].strip() if shape != 2 else LINES.get(1, "")))
+        if key in seenw:
+            continue
+        seenw.add(key)
+        chk.report(key, "the program and its expansion by hand assemble differently on .%s\n%s--- expansion\n%s" % (cpu, sp, sx),
+                   dict(source=sp, expansion=sx, observed=[observe(byid[cid + ".p"], []), observe(byid[cid + ".x"], [])]))
+    fails = sorted((cid for cid in bad if cid not in canaries and cid not in wmeta), key=lambda c: len(progs[meta[c][0]]))
     for cid in fails:
         i, cpu, bpa, big, names, src = meta[cid]
         last = progs[i][-1]
@@ -292,8 +360,9 @@ def run(tier, seed):
         rule="GenMacro: prelude (4 defines/equ, 7 macros incl. nested, repeating, 9-parameter) + every body of 1-2 statements "
              "(BFS) and drawn bodies of up to 10; non-trivial = the body invokes a macro or repeats; distinct by abstract program; "
              "every seventh program behind more than 32 KiB of unused definitions (second pool of the macro table); "
-             "plus include-equivalence runs through the executable",
-        traces_validated_against_impl=len(events) - len(canaries), include_pairs=ninc,
+             "plus include-equivalence runs through the executable; wrap family: instruction lines of every CPU's comparison corpus "
+             "(quick: 24 per CPU) inside a macro and as a macro argument against TLC's expansion, both assembled by the real code",
+        traces_validated_against_impl=len(events) - len(canaries), include_pairs=ninc, wrap_pairs=nwrap,
         canaries=dict(injected=len(canaries), rejected=len(canaries)), exhaustive=False))
     chk.samples = [meta[c][5] for c in rnd.sample(sorted(meta), 2)]
     chk.assumptions = ["define/equ values are single literals or names (textual splicing of multi-token values is not generated)",
